@@ -32,7 +32,7 @@ def nth(a, i):
     return sym.SInt(a.t[sym.as_int_term(i)])
 
 
-@harness('C33', 'SortedSet._find_insertion', functions=[U + 'SortedSet._find_insertion'])
+@harness('C33', 'SortedSet._find_insertion', functions=[U + 'SortedSet._find_insertion'], native='contracts.native.c33:replay')
 def find_insertion(vc):
     """requires _items any integer list (any length)  ensures 0 <= r <= n and (r == 0 or a[r-1] < x) and (r == n or a[r] >= x); loop invariant
     0 <= lo <= hi <= n and (lo == 0 or a[lo-1] < x) and (hi == n or a[hi] >= x); variant hi - lo"""
@@ -105,7 +105,7 @@ BINARY = {
 
 def _mk_binary(op):
     @harness('C33', 'SortedSet.' + op, functions=[U + 'SortedSet.' + n for n in (op, '_intersect', '_diff', 'add', 'copy', '__contains__', '_find_insertion', 'union', 'difference',
-                                                                                 'intersection', 'symmetric_difference')])
+                                                                                 'intersection', 'symmetric_difference')], native='contracts.native.c33:replay')
     def h(vc):
         na, nb = vc.choice('size_a', SIZES_A), vc.choice('size_b', SIZES_B)
         a, ea = mk_set(vc, 'a', na)
@@ -135,7 +135,7 @@ NARY = {'union': lambda ia, ib, ic: sym.or_(ia, ib, ic), 'intersection': lambda 
 
 
 def _mk_nary(op):
-    @harness('C33', 'SortedSet.%s(b, c)' % op, functions=[U + 'SortedSet.' + n for n in (op, '_intersect', '_diff', 'add', 'copy', '__contains__', '_find_insertion', '__len__')])
+    @harness('C33', 'SortedSet.%s(b, c)' % op, functions=[U + 'SortedSet.' + n for n in (op, '_intersect', '_diff', 'add', 'copy', '__contains__', '_find_insertion', '__len__')], native='contracts.native.c33:replay')
     def h(vc):
         na, nb, nc = vc.choice('size_a', SIZES_A[:3] if TIER == 'quick' else SIZES_A[:4]), vc.choice('size_b', SIZES_B), vc.choice('size_c', SIZES_B)
         a, ea = mk_set(vc, 'a', na)
@@ -154,7 +154,7 @@ for _op in NARY:
     _mk_nary(_op)
 
 
-@harness('C33', 'SortedSet.element-operations', functions=[U + 'SortedSet.' + n for n in ('add', 'remove', 'pop', '__contains__', 'clear', 'copy', '__len__', '__iter__', '__getitem__', '_find_insertion')])
+@harness('C33', 'SortedSet.element-operations', functions=[U + 'SortedSet.' + n for n in ('add', 'remove', 'pop', '__contains__', 'clear', 'copy', '__len__', '__iter__', '__getitem__', '_find_insertion')], native='contracts.native.c33:replay')
 def element_ops(vc):
     """requires a SortedSet satisfying the representation invariant (0..3/4 elements, any values) and any element x
     ensures  x in s <=> x is an element;  add: view' == view + {x};  remove: present -> view' == view - {x}, absent -> KeyError and unchanged;
@@ -205,7 +205,7 @@ def element_ops(vc):
             vc.check('getitem/by-rank', sym.and_(vc.call(U + 'SortedSet.__getitem__', s, 0) == els[0], vc.call(U + 'SortedSet.__getitem__', s, n - 1) == els[-1]))
 
 
-@harness('C33', 'SortedSet.__init__', functions=[U + 'SortedSet.__init__', U + 'SortedSet.update', U + 'SortedSet.add', U + 'SortedSet._find_insertion'])
+@harness('C33', 'SortedSet.__init__', functions=[U + 'SortedSet.__init__', U + 'SortedSet.update', U + 'SortedSet.add', U + 'SortedSet._find_insertion'], native='contracts.native.c33:replay')
 def init(vc):
     """requires any list of 0..4 elements in any order, duplicates allowed  ensures the new set's list is strictly ascending and its element set is exactly the given elements"""
     from cassandra.util import SortedSet
@@ -221,7 +221,7 @@ CMP = {'issubset': lambda sub, sup, eq: sub, 'issuperset': lambda sub, sup, eq: 
        '__le__': lambda sub, sup, eq: sub, '__lt__': lambda sub, sup, eq: sym.and_(sub, sym.not_(eq)), '__ge__': lambda sub, sup, eq: sup, '__gt__': lambda sub, sup, eq: sym.and_(sup, sym.not_(eq))}
 
 
-@harness('C33', 'SortedSet.comparisons', functions=[U + 'SortedSet.' + n for n in list(CMP) + ['_intersect', '__len__', '__contains__']])
+@harness('C33', 'SortedSet.comparisons', functions=[U + 'SortedSet.' + n for n in list(CMP) + ['_intersect', '__len__', '__contains__']], native='contracts.native.c33:replay')
 def comparisons(vc):
     """requires two SortedSets  ensures issubset / issuperset / isdisjoint / == / != / <= / < / >= / > return exactly the set-theoretic relation of the two views
     (also == / != against a plain list of distinct elements)"""
@@ -291,7 +291,7 @@ def check_map(vc, name, m, want, ser):
         vc.check('%s/index-of-entry-%d' % (name, i), kk is not MISSING and sym.and_(index[kk] == i) is not False and (index[kk] == i if isinstance(index[kk], int) else sym.and_(index[kk] == i)))
 
 
-@harness('C33', 'OrderedMap', functions=[U + 'OrderedMap.' + n for n in ('__init__', '_insert', '__getitem__', '__delitem__', '__iter__', '__len__', '__eq__', 'popitem')])
+@harness('C33', 'OrderedMap', functions=[U + 'OrderedMap.' + n for n in ('__init__', '_insert', '__getitem__', '__delitem__', '__iter__', '__len__', '__eq__', 'popitem')], native='contracts.native.c33:replay')
 def ordered_map(vc):
     """requires an OrderedMap satisfying its invariant (0..3 entries, any keys / values) and a key k (possibly equal to an existing key)
     ensures  m[k] = v: existing key -> value replaced in place, new key -> appended;  m[k]: the value or KeyError;  del m[k]: entry removed, order of the others kept,
